@@ -52,6 +52,7 @@ type Violation struct {
 
 type State struct {
 	eng       *Engine
+	cfg       *Config
 	sol       *Solver
 	prefix    []Decision
 	pos       int
